@@ -367,6 +367,35 @@ func (c *Ctx) rememberCodec(au *ssa.Function) {
 		}
 	}
 	if !okTotal {
+		// the raw token carved out of a larger allocation: buf[:n:n]
+		for _, b := range gen.Blocks {
+			for _, in := range b.Instrs {
+				sl, ok := in.(*ssa.Slice)
+				if !ok || sl.Low != nil || sl.High == nil || sl.Referrers() == nil {
+					continue
+				}
+				l, ok := linearOf(sl.High, 0)
+				if !ok {
+					continue
+				}
+				// it is the token buffer if a constant byte (the separator) is stored into it
+				for _, ref := range *sl.Referrers() {
+					ia, isIA := ref.(*ssa.IndexAddr)
+					if !isIA || ia.Referrers() == nil {
+						continue
+					}
+					for _, rr := range *ia.Referrers() {
+						if st, isSt := rr.(*ssa.Store); isSt {
+							if _, isC := ConstInt(st.Val); isC {
+								total, okTotal, raw = l, true, sl
+							}
+						}
+					}
+				}
+			}
+		}
+	}
+	if !okTotal {
 		r.Unknown("C07.codec", gn, "make([]byte, n)", "-", "token buffer length is not a linear form over len(pid)")
 		return
 	}
@@ -508,8 +537,8 @@ func (c *Ctx) rememberCodec(au *ssa.Function) {
 				}
 			}
 			if sum != nil {
-				if _, sliced := stripConv(Arg(sum, 0)).(*ssa.Slice); !sliced {
-					okH = true
+				if sv, sliced := stripConv(Arg(sum, 0)).(*ssa.Slice); !sliced || ssa.Value(sv) == raw {
+					okH = true // (the token buffer itself may be a slice of a larger allocation)
 				}
 			}
 		}
